@@ -127,13 +127,9 @@ _handle_error(xmpp_conn_t *conn, xmpp_stanza_t *stanza, void *userdata)
     conn->stream_error->type = XMPP_SE_UNDEFINED_CONDITION;
 
     if (conn->stream_error) {
-        child = xmpp_stanza_get_children(stanza);
-        do {
-            const char *ns = NULL;
-
-            if (child) {
-                ns = xmpp_stanza_get_ns(child);
-            }
+        for (child = xmpp_stanza_get_children(stanza); child;
+             child = xmpp_stanza_get_next(child)) {
+            const char *ns = xmpp_stanza_get_ns(child);
 
             if (ns && strcmp(ns, XMPP_NS_STREAMS_IETF) == 0) {
                 name = xmpp_stanza_get_name(child);
@@ -190,7 +186,7 @@ _handle_error(xmpp_conn_t *conn, xmpp_stanza_t *stanza, void *userdata)
                 else if (strcmp(name, "xml-not-well-formed") == 0)
                     conn->stream_error->type = XMPP_SE_XML_NOT_WELL_FORMED;
             }
-        } while ((child = xmpp_stanza_get_next(child)));
+        }
 
         conn->stream_error->stanza = xmpp_stanza_clone(stanza);
     }
